@@ -17,7 +17,7 @@ FUNCTIONS_ENCODED = ['pgpy.types.Armorable.crc24', 'pgpy.types.Armorable.__str__
                      'pgpy.types.PGPObject.int_to_bytes', 'pgpy.pgp.PGPSignature.parse', 'pgpy.pgp.PGPMessage.parse',
                      'pgpy.pgp.PGPKey.parse', 'pgpy.pgp.PGPKey.magic', 'pgpy.pgp.PGPMessage.magic', 'pgpy.pgp.PGPSignature.magic']
 STUBS = ['Armorable.ascii_unarmor -> pre-split result with a symbolic block label (O10.4): the armor regular expression is not executed symbolically']
-OUTSIDE = ['text-level armor round trip through the armor regular expression, CRLF / surrounding text, header lines, CRC-mismatch warning: '
+OUTSIDE = ['armor round trip on SYMBOLIC text (O10.5 enumerates concrete payloads only), header lines: '
            'regular expressions on symbolic text are not decidable with this tool (CrossHair re model wrong / non-terminating, probe P14)',
            'base64 itself (C code)']
 ASSUMPTIONS = ['CRC-24 reference: RFC 4880 6.1 as a 24-bit MSB-first LFSR with generator 0x864CFB, init 0xB704CE']
@@ -106,7 +106,8 @@ def o10_1(tier):
         for octet in msg:
             c = tr.run_def(f, [c, octet], {}, g, z3.BoolVal(True), {})
         fin = tr.run_def(mkdef('crc_fin', [state], [ast.Return(ret_expr)]), [c], {}, g, z3.BoolVal(True), {})
-        assert fin == Armorable.crc24(bytearray(msg)) == ref_crc(msg), msg
+        if fin != Armorable.crc24(bytearray(msg)):          # translator vs real function only: the comparison with the RFC is the solver's claim above
+            raise astsmt.Untranslatable('translator disagrees with crc24 on %r' % (msg,))
         n += 1
     assert ref_crc(b'123456789') == 0x21CF02            # published CRC-24/OPENPGP check value
     res['validated'] = n + 1
@@ -285,6 +286,7 @@ def _stub_unarmor(text):
             'cleartext': _Unarmor.cleartext}
 
 
+_REAL_UNARMOR = Armorable.__dict__['ascii_unarmor']
 Armorable.ascii_unarmor = staticmethod(_stub_unarmor)        # after the fixtures above were loaded with the real one
 
 
@@ -330,6 +332,66 @@ def labels(kind: int, li: int, has_ct: bool) -> bool:
     return True
 
 
-SANITY = ['replay_crc(0, 0)', 'replay_crc(0xB704CE, 0x31)', 'replay_crc(0xFFFFFF, 0xFF)', 
+# ------------------------------------------------------------------------------------ O10.5 armored text round trip (concrete texts, enumerated)
+def _real_unarmor():
+    return _REAL_UNARMOR
+
+
+LENS = (0, 1, 2, 3, 45, 46, 47, 48, 49, 95, 96, 97, 200)
+
+
+@ob('O10.5', 'armored text round trip on concrete payloads (the armor regular expression and base64 run natively; the engine only enumerates the choices): loading the armored text - as str, bytes '
+             'or bytearray, with LF or CRLF line ends, with or without surrounding text - gives the binary export back; a corrupted payload character is reported (error or CRC warning)',
+    'literal-message payload length by symbolic index from 13 values around the 3-octet and 48-octet boundaries; input type x line ending x surrounding text; corruption position by index from 4',
+    cond_timeout={'q': 280, 't': 600}, partitions=[['li %% 4 == %d' % k] for k in range(4)])
+def armor_roundtrip(li: int, kind: int, crlf: bool, surround: bool, corrupt: int) -> bool:
+    """
+    pre: 0 <= li < 13
+    pre: 0 <= kind < 3
+    pre: 0 <= corrupt < 5
+    post: _
+    """
+    n = 0
+    for k in range(13):
+        if li == k:
+            n = LENS[k]
+    saved = Armorable.__dict__['ascii_unarmor']          # the staticmethod object itself
+    Armorable.ascii_unarmor = _REAL_UNARMOR
+    try:
+        msg = PGPMessage.new(bytes((i * 7 + 1) % 256 for i in range(n)), compression=0, file=False, format='b')
+        binary = msg.__bytes__()
+        text = str(msg)
+        lines = text.split('\n')
+        if any(len(l) > 76 for l in lines) or lines[0] != '-----BEGIN PGP MESSAGE-----':
+            return False
+        if corrupt:
+            # flip one base64 character of the payload (not padding): position from the start / middle / end of the first payload line
+            body_at = text.index('\n\n') + 2
+            first_len = text.index('\n', body_at) - body_at
+            pos = body_at + (0, 0, first_len // 2, first_len - 1, 1)[corrupt] if first_len > 0 else body_at
+            ch = text[pos]
+            repl = 'A' if ch != 'A' else 'B'
+            text = text[:pos] + repl + text[pos + 1:]
+        if crlf:
+            text = text.replace('\n', '\r\n')
+        if surround:
+            text = 'Some mail header: x\n\n' + text + '\ntrailing words\n'
+        data = text if kind == 0 else (text.encode('latin-1') if kind == 1 else bytearray(text.encode('latin-1')))
+        import warnings as _w
+        with _w.catch_warnings(record=True) as caught:
+            _w.simplefilter('always')
+            try:
+                rx = PGPMessage.from_blob(data)
+            except Exception:
+                return bool(corrupt)            # only a corrupted block may be refused
+        crc_warned = any('crc24' in str(w.message).lower() for w in caught)
+        if corrupt:
+            return crc_warned or rx.__bytes__() != binary
+        return rx.__bytes__() == binary and not crc_warned
+    finally:
+        Armorable.ascii_unarmor = saved
+
+
+SANITY = ['armor_roundtrip(%d, %d, %s, %s, %d)' % (l, k, c, s_, x) for l in (0, 3, 7, 12) for k in range(3) for c in (True, False) for s_ in (True, False) for x in (0, 2)] + ['replay_crc(0, 0)', 'replay_crc(0xB704CE, 0x31)', 'replay_crc(0xFFFFFF, 0xFF)', 
           'crc_line(0)', 'crc_line(255)', 'crc_line(2**24 - 1)', 'crc_line(65536)'] + ['replay_wrap(%d)' % n for n in (0, 1, 63, 64, 65, 4000)] + \
          ['labels(%d, %d, %s)' % (k, l, c) for k in range(4) for l in range(7) for c in (True, False)] + ['crc_line_callsite(0)', 'crc_line_callsite(255)', 'crc_line_callsite(0x010203)']
